@@ -257,4 +257,77 @@ theorem parseIn_unnamed {f : Nat} {t : Ty} {X : List Char} (hh : HeadOk (renderD
   unfold parseIn
   simp only [hh.notName, hp]
 
+
+/-! #### the prefix of a function pointer -/
+
+theorem dropPrefix?_append : ∀ (p X : List Char), dropPrefix? p (p ++ X) = some X
+  | [], X => by cases X <;> rfl
+  | a :: p, X => by simp [dropPrefix?, dropPrefix?_append p X]
+
+theorem kwUnsafe_cons : kwUnsafe = 'u' :: ['n', 's', 'a', 'f', 'e', ' '] := by decide
+theorem externq_cons : "extern \"".toList = 'e' :: ['x', 't', 'e', 'r', 'n', ' ', '"'] := by decide
+theorem fnp_cons : "fn(".toList = 'f' :: ['n', '('] := by decide
+theorem qsp_cons : "\" ".toList = ['"', ' '] := by decide
+
+theorem str?_none {abi : Abi} (h : abi.str? = none) : abi = .rust := by
+  cases abi <;> simp [Abi.str?] at h
+  rfl
+
+/-- The `extern "…" ` part of `write_fn_pointer_prefix`. -/
+def externPart (abi : Abi) : List Char :=
+  match abi.str? with
+  | some s => "extern \"".toList ++ s.toList ++ "\" ".toList
+  | none => []
+
+theorem fnPrefix_eq (abi : Abi) (u : Bool) : fnPrefix abi u = (if u then kwUnsafe else []) ++ externPart abi := rfl
+
+theorem parseAbiFn_render (abi : Abi) (Z : List Char) (hw : wfAbi abi = true) :
+    parseAbiFn (externPart abi ++ ("fn(".toList ++ Z)) = some (abi, Z) := by
+  unfold parseAbiFn externPart
+  cases ha : abi.str? with
+  | none =>
+    have := str?_none ha
+    subst this
+    have d : dropPrefix? "extern \"".toList ("fn(".toList ++ Z) = none := by
+      rw [externq_cons, fnp_cons]; simp [dropPrefix?]
+    simp only [List.nil_append, d, dropPrefix?_append]
+  | some a =>
+    obtain ⟨hq, hab⟩ := abi_roundtrip hw ha
+    have d : dropPrefix? "extern \"".toList
+        ("extern \"".toList ++ a.toList ++ "\" ".toList ++ ("fn(".toList ++ Z)) =
+        some (a.toList ++ ("\" ".toList ++ ("fn(".toList ++ Z))) := by
+      rw [List.append_assoc, List.append_assoc]
+      exact dropPrefix?_append _ _
+    have hs : spanP (fun c => c != '"') (a.toList ++ ("\" ".toList ++ ("fn(".toList ++ Z))) =
+        (a.toList, "\" ".toList ++ ("fn(".toList ++ Z)) := by
+      apply spanP_append _ _ hq
+      right
+      rw [qsp_cons]
+      exact ⟨'"', _, rfl, by decide⟩
+    simp only [d, hs, dropPrefix?_append, hab]
+
+theorem parseFnPrefix_render (abi : Abi) (u : Bool) (Z : List Char) (hw : wfAbi abi = true) :
+    parseFnPrefix (fnPrefix abi u ++ ("fn(".toList ++ Z)) = some ((u, abi), Z) := by
+  have key := parseAbiFn_render abi Z hw
+  unfold parseFnPrefix
+  rw [fnPrefix_eq]
+  cases u with
+  | true =>
+    simp only [if_true, List.append_assoc, dropPrefix?_append, key]
+  | false =>
+    have d : dropPrefix? kwUnsafe (externPart abi ++ ("fn(".toList ++ Z)) = none := by
+      unfold externPart
+      cases abi.str? with
+      | none => rw [kwUnsafe_cons, fnp_cons]; simp [dropPrefix?]
+      | some a => rw [kwUnsafe_cons, externq_cons]; simp [dropPrefix?]
+    simp only [Bool.false_eq_true, if_false, List.nil_append, d, key]
+
+theorem startsWithRParen_cons (q : List Char) : startsWithRParen (')' :: q) = true := rfl
+
+theorem startsWithRParen_ne {c : Char} (q : List Char) (h : c ≠ ')') : startsWithRParen (c :: q) = false := by
+  unfold startsWithRParen
+  split
+  · rename_i heq; injection heq with e _; exact absurd e h
+  · rfl
+
 end Pxv.Ty
